@@ -222,7 +222,68 @@ def hazards(ctx, site):
                 bad.append(x)
         elif x[0] == 'owner':
             continue
+    if bad and site.func.name.startswith('_') and not site.func.name.startswith('__'):
+        bad = _resolve_in_callers(ctx, site, bad, head)
     return bad, r
+
+
+def _resolve_in_callers(ctx, site, bad, head):
+    """a memo site in a private helper: a parameter (or the receiver) the cached value depends on is judged by what
+    every call site hands over - derived from the object handed over as the owner, from what is handed over as a
+    key, or constant"""
+    f = site.func
+    sites = [(ctx.model.funcs[q], e.node) for q, es in ctx.program.edges.items() for e in es
+             if e.callee.qual == f.qual and q in ctx.model.funcs and isinstance(e.node, ast.Call)]
+    if not sites:
+        return bad
+    pos = [a.arg for a in f.node.args.posonlyargs + f.node.args.args]
+    bound = f.cls is not None and not f.is_static
+    left = list(bad)
+    for x in bad:
+        if x[0] == 'param':
+            pname = x[1]
+        elif x[0] == 'attr' and x[1].split('.')[0] == 'self' and bound and head != 'self':
+            pname = 'self'
+        else:
+            continue
+        ok_all = True
+        for cf, call in sites:
+            cfl = ctx.flow(cf)
+            cid = cfl.node_id_of(call)
+            given = {}
+            params = pos[1:] if bound else pos
+            for p_, a_ in zip(params, call.args):
+                given[p_] = a_
+            for k_ in call.keywords:
+                if k_.arg is not None:
+                    given[k_.arg] = k_.value
+            if bound and isinstance(call.func, ast.Attribute):
+                given[pos[0]] = call.func.value
+            if head not in given or pname not in given or cid is None:
+                ok_all = False
+                break
+            own = given[head]
+            own_head = norm(own).split('.')[0].split('[')[0]
+            key_roots = set()
+            for k_ in site.keys:
+                if k_ in given:
+                    key_roots |= {y for y in cfl.roots(given[k_], cid)}
+            for y in cfl.roots(given[pname], cid, stop_names={own_head}):
+                if y[0] in ('const', 'global', 'call', 'attrname', 'owner'):
+                    continue
+                if y in key_roots:
+                    continue
+                if y[0] == 'attr' and y[1].split('.')[0] in (own_head, 'np', 'numpy', 'math'):
+                    continue
+                if y[0] in ('param', 'local') and y[1] == own_head:
+                    continue
+                ok_all = False
+                break
+            if not ok_all:
+                break
+        if ok_all:
+            left.remove(x)
+    return left
 
 
 def inplace_on_cached(ctx, site):
